@@ -17,9 +17,9 @@ C = {
  "C04": ("Theorems: K nearest integer (capped), starts within half a sample, reported overlap = realised overlap, log spacing where unclamped, Jdes search sound and terminating for any scheduler behaviour, forced plans exact.", "7/C04",
          "monotonicity of L/K is proved for ltf/lpsd (SchedMono.v) and swept for vectorised/new_ltf; K>=Kdes and the 10% vectorised/iterative agreement are decided by the oracle sweep", T_SCHED),
  "C06": ("ENBW, power-spectrum and density normalisation, channel-scaling and fs-relabelling laws proved on the regenerated attribute table; window sums, scaling laws and sinusoid calibration checked on real analyses.", "7/C06",
-         "PARTIAL: kernel homogeneity and the Kaiser leakage bound behind 'A^2/2' are swept, not proved", T_GEN_A),
+         "PARTIAL: the Kaiser leakage bound behind 'A^2/2' is swept, not proved (kernel homogeneity is proved for all detrend modes, KernelLin.v)", T_GEN_A),
  "C09": ("coherence in [0,1] from Cauchy-Schwarz, coherence 1 when |XY|^2=XX*YY, swap symmetry, GyyCx+GyyRx=Gyy, GyySx=Gyy(1-coh), auto-in-pair — proved on the regenerated table.", "7/C09",
-         "Cauchy-Schwarz of the averaged statistics is a hypothesis of the table theorems (kernel-level fact, checked by the oracle on every result); float coherence may exceed 1 by rounding (1e-12 allowed)", T_GEN_A),
+         "Cauchy-Schwarz is proved for the statistics returned by the regenerated cross kernels (KernelCS.v); float coherence may exceed 1 by rounding (1e-12 allowed)", T_GEN_A),
  "C10": ("Each *_dev/*_error of the regenerated table equals the Bendat-Piersol expression; dev = estimate x error; 1/sqrt(n) scaling; phase error >= magnitude error.", "7/C10",
          "PARTIAL: upper bound pi/2 (Jordan's inequality), the g2->1 limit and the Monte-Carlo agreement are checked numerically only", T_GEN_A),
  "C11": ("Empirical variance/deviation and their spectral-unit scaling proved on the regenerated table; M2=0 for one segment on the regenerated reducer; M2 = population variance checked against per-segment kernel calls.", "7/C11",
@@ -27,9 +27,9 @@ C = {
  "C05": ("The dispatch of _lpsd_core/compute_single_bin is re-extracted from source on every run (T3) and checked exhaustively in Coq (48 paths: kernel of the order/mode/backend, argument order, omega from f, DFT-even Kaiser); cache transparency and band alignment proved; recorded kernel calls of real analyses compared with the model; independent reference on sampled bins.", "7/C05",
          "window functions and the QR basis are rebuilt with the same library calls; the reference estimator is evaluated in extended precision on sampled bins", "Coq check of the dispatch table regenerated from source (T3) + recorder correspondence + reference oracle"),
  "C07": ("Gain and negative-phase-for-lag theorems on the regenerated attribute table; per-segment gain/linearity lemmas on the kernels; Numba, CUDA and NumPy cross kernels proved equal to one definition (sign included).", "7/C07",
-         "PARTIAL: the d/L edge effect for arbitrary records is swept with a 0.35 rad allowance; detrend linearity for orders 0..2 is covered by the oracle", T_GEN_K),
- "C08": ("Order-0 detrending proved to remove constants exactly on the regenerated Numba kernel; order -1 raw by definition; each channel detrended with its own coefficients (regenerated cross kernels = reference).", "7/C08",
-         "PARTIAL: orders 1,2 rely on the LAPACK QR contract, validated numerically every run and swept with trends of size 1 and 1e3 on 4 backends", T_GEN_K),
+         "PARTIAL: the d/L edge effect for arbitrary records is swept with a 0.35 rad allowance (gain statistics are proved for all detrend modes)", T_GEN_K),
+ "C08": ("Order-0 detrending proved to remove constants exactly and orders 1,2 proved to remove every combination of orthonormal basis columns (own coefficients per channel and segment) on the regenerated Numba kernels; order -1 raw by definition.", "7/C08",
+         "orders 1,2 are proved for any basis with orthonormal columns (DetrendPoly.v); that LAPACK QR returns such a basis spanning 1,t,t^2 is a contract validated numerically every run; 'degree p+1 does change it' is decided by the sweep against the definition", T_GEN_K),
  "C12": ("alpha(psll) proved strictly increasing; the DFT-even Kaiser construction is re-extracted from source (T3) and checked; kaiser_alpha tied bit-exactly; side-lobe level swept on the implementation with the property's own P-1 dB threshold.", "7/C12",
          "PARTIAL: the Kaiser-Bessel side-lobe bound is not a theorem (Bessel analysis over a continuum; no library support) — swept", T_HAND),
  "C13": ("Shape normalisation model (Ingest.v) proved layout-independent and tied by vm_compute correspondence; sanitising proved idempotent/finite at binary64; guarded divisions on the regenerated table; caller bytes, zero-filled equality, finiteness on real runs.", "7/C13",
